@@ -461,6 +461,107 @@ def sc_wrapper(cx, which, spec):
     _compare_fits(cx, tag, fa, fb, n=n)
 
 
+def _hdens(x, a, b):
+    return a + b * x
+
+
+def sc_wrapper_hist(cx, spec, density):
+    """hist_fit wrapper vs the explicitly constructed HistFit: same cost function choice (Gaussian approximation as soon
+    as ANY uncertainty is given, Poisson likelihood otherwise), same sources, same cost"""
+    import sys
+
+    import kafe2.fit.util.wrapper  # noqa: F401
+    from kafe2 import HistContainer, HistFit
+    from vx import stubs
+
+    W = sys.modules["kafe2.fit.util.wrapper"]
+    stubs.reset()
+    stubs.MODE["adversarial"] = False  # the fit inside the wrapper is not the subject here: fewest objective evaluations
+    raw = [0.5, 0.6, 1.5, 2.5, 2.7, 3.2, 3.3]
+    n = 3  # three bins, two parameters: ndf = 1
+    e = cx.reals("e", n)
+    c = cx.reals("c", 2)
+    r = cx.real("r")
+    cr = cx.reals("cr", 2)
+    for v in list(e) + list(c) + [r] + list(cr):
+        cx.assume(v >= 0)
+    p0 = cx.reals("p0", 2)
+    for v in p0:
+        cx.assume(v > 0)
+    kw = {}
+    if "error" in spec:
+        kw["error"] = list(e)
+    if "cor" in spec:
+        kw["error_cor"] = c[0]
+    if "rel" in spec:
+        kw["error_rel"] = r
+    if "cor-rel" in spec:
+        kw["error_cor_rel"] = cr[0]
+    res = W.hist_fit(_hdens, list(raw), n_bins=n, bin_range=(0.0, 4.5), density=density, p0=list(p0), report=False, profile=False, save=False, **kw)
+    fa = res["fit"]
+    hb = HistContainer(n, (0.0, 4.5), fill_data=list(raw))
+    fb = HistFit(hb, _hdens, cost_function="gauss_approximation" if spec else "poisson", density=density)
+    if "error" in spec:
+        fb.add_error(list(e))
+    if "cor" in spec:
+        fb.add_error(c[0], correlation=1.0)
+    if "rel" in spec:
+        fb.add_error(r, relative=True, reference="model")
+    if "cor-rel" in spec:
+        fb.add_error(cr[0], correlation=1.0, relative=True, reference="model")
+    tag = "wrapper/hist/%s/density-%s" % ("+".join(spec) or "none", density)
+    cx.concrete(tag + ":same-cost-function", type(fa._cost_function).__name__ == type(fb._cost_function).__name__ and fa._cost_function.name == fb._cost_function.name,
+                info="%s / %s vs %s / %s" % (type(fa._cost_function).__name__, fa._cost_function.name, type(fb._cost_function).__name__, fb._cost_function.name))
+    q = [cx.real("q_a"), cx.real("q_b")]
+    for v in q:
+        cx.assume(v > 0)
+    for f in (fa, fb):
+        f.set_parameter_values(a=q[0], b=q[1])
+    cx.eq(tag + ":model", fa.model, fb.model)
+    if spec:
+        cx.eq(tag + ":total_cov_mat", fa.total_cov_mat, fb.total_cov_mat)
+        cx.eq(tag + ":total_error^2", [t * t for t in fa.total_error], [t * t for t in fb.total_error])
+
+
+def sc_wrapper_hist_concrete(cx, spec, density):
+    """concrete-only sampling (fully correlated sources make the symbolic Cholesky pivots too slow to decide): hist_fit
+    wrapper vs explicit HistFit on fixed numbers, real backend"""
+    import numpy as np
+
+    from kafe2 import HistContainer, HistFit
+    from kafe2.fit.util.wrapper import hist_fit
+
+    raw = [0.5, 0.6, 1.5, 2.5, 2.7, 3.2, 3.3, 1.1, 2.2, 0.3]
+    n = 3
+    kw, srcs = {}, []
+    if "error" in spec:
+        kw["error"] = [0.5, 0.7, 0.6]
+        srcs.append(dict(err_val=[0.5, 0.7, 0.6]))
+    if "cor" in spec:
+        kw["error_cor"] = [0.3, 0.2]
+        srcs += [dict(err_val=0.3, correlation=1.0), dict(err_val=0.2, correlation=1.0)]
+    if "rel" in spec:
+        kw["error_rel"] = 0.1
+        srcs.append(dict(err_val=0.1, relative=True, reference="model"))
+    if "cor-rel" in spec:
+        kw["error_cor_rel"] = [0.05, 0.08]
+        srcs += [dict(err_val=0.05, correlation=1.0, relative=True, reference="model"), dict(err_val=0.08, correlation=1.0, relative=True, reference="model")]
+    res = hist_fit(_hdens, list(raw), n_bins=n, bin_range=(0.0, 4.5), density=density, p0=[0.2, 0.05], report=False, profile=False, save=False, **kw)
+    fa = res["fit"]
+    fb = HistFit(HistContainer(n, (0.0, 4.5), fill_data=list(raw)), _hdens, cost_function="gauss_approximation" if spec else "poisson", density=density)
+    for s_ in srcs:
+        fb.add_error(**s_)
+    tag = "wrapper-numeric/hist/%s/density-%s" % ("+".join(spec) or "none", density)
+    cx.concrete(tag + ":same-cost-function", type(fa._cost_function).__name__ == type(fb._cost_function).__name__ and fa._cost_function.name == fb._cost_function.name,
+                info="%s / %s vs %s / %s" % (type(fa._cost_function).__name__, fa._cost_function.name, type(fb._cost_function).__name__, fb._cost_function.name))
+    for f in (fa, fb):
+        f.set_parameter_values(a=0.3, b=0.04)
+    cx.concrete(tag + ":model", bool(np.allclose(fa.model, fb.model, rtol=1e-10)))
+    if spec:
+        cx.concrete(tag + ":total_cov_mat", bool(np.allclose(fa.total_cov_mat, fb.total_cov_mat, rtol=1e-10, atol=1e-14)), info="%r vs %r" % (fa.total_cov_mat, fb.total_cov_mat))
+    cx.concrete(tag + ":cost", bool(np.isclose(fa.cost_function_value, fb.cost_function_value, rtol=1e-9)), info="%r vs %r" % (fa.cost_function_value, fb.cost_function_value))
+
+
 def sc_twin(cx):
     """sensitivity twin: a relative source is NOT the absolute source of the same number"""
     fa, (x, y) = _xy(cx, "chi2_fast")
@@ -495,6 +596,14 @@ def scenarios(tier, seed):
         if tier == "quick" and any(k in spec for k in ("rel", "cor-rel", "x-cor")):
             continue  # model-relative / correlated x sources: two-pass fits with long symbolic terms -> thorough tier
         S.append(Scenario("wrapper/%s/%s" % (which, "+".join(spec)), sc_wrapper, family="wrapper/" + which, params=dict(which=which, spec=spec)))
+    for spec in ([], ["error"], ["cor"], ["rel"], ["cor-rel"], ["error", "cor-rel"], ["error", "cor", "rel", "cor-rel"]):
+        for density in (True, False):
+            S.append(Scenario("wrapper-numeric/hist/%s/density-%s" % ("+".join(spec) or "none", density), sc_wrapper_hist_concrete, family="wrapper-numeric/hist", params=dict(spec=spec, density=density), concrete_only=True))
+    for spec in ([], ["error"], ["rel"]):
+        for density in (True, False):
+            if tier == "quick" and (not density and spec != [] or spec == ["rel"]):
+                continue  # model-relative source: the variance depends on the parameters (now with its ln det term): thorough tier
+            S.append(Scenario("wrapper/hist/%s/density-%s" % ("+".join(spec) or "none", density), sc_wrapper_hist, family="wrapper/hist", params=dict(spec=spec, density=density)))
     S.append(Scenario("rel-vs-abs/y/chi2_pointwise", sc_rel_vs_abs, family="rel-vs-abs", params=dict(axis="y", cost="chi2_pointwise")))
     S.append(Scenario("simple-vs-matrix/nll-gaussian", sc_simple_vs_matrix, family="simple-vs-matrix", params=dict(cost="nll-gaussian")))
     for what in ("rel-vs-abs", "simple-vs-matrix", "cor-vs-cov", "scalar-vs-vector"):
